@@ -128,6 +128,8 @@ pub struct StepEff {
     pub msvc: bool,
     pub kind: String,
     pub reads: Vec<String>,
+    /// Canonical names of `reads` (the generator knows them; the spec never canonicalises).
+    pub creads: Vec<String>,
     pub gen: String,
     pub output: String,
     pub failwrites: bool,
@@ -157,6 +159,7 @@ pub fn step_effs(g: &Value) -> Vec<StepEff> {
                 msvc: s["msvc"].as_bool().unwrap_or(false),
                 kind: eff["kind"].as_str().unwrap_or("write").to_string(),
                 reads: strs(&eff["reads"]),
+                creads: if eff.get("creads").is_some() { strs(&eff["creads"]) } else { strs(&eff["reads"]) },
                 gen: eff["gen"].as_str().unwrap_or("").to_string(),
                 output: eff["output"].as_str().unwrap_or("").to_string(),
                 failwrites: eff["failwrites"].as_bool().unwrap_or(false),
